@@ -72,6 +72,7 @@ def check(run: Run, prog: Program, model: Model, tier: str) -> None:
         "checked structurally (path rendered, dispatch and attribute agreement). Holds for all nesting depths by "
         "induction over the schema tree (each method is checked assuming members satisfy the same contract)."
         " The failing guard of a relational error must test the reported value itself (not round()/int() of it). Formatter rules are decided by abstract evaluation of the format() method of each error class on an instance built by its own __init__.")
+    run.explanation += " FORMAT-CHILD: on every path of format_missing_element_error / format_missing_key_error the rendered path is the error's path extended by the missing index / key (no truthiness test of the child decides it)."
     run.rule_text = ("obligations = distinct (method, error class / descent site / index site) instances over all explored paths; "
                      "non-trivial = provenance established through inlined helpers, loop variables or aliasing locals")
     from ..entry import entry_transparent
@@ -408,6 +409,19 @@ def _check_formatter(run: Run, prog: Program, model: Model, errs: Dict[str, Clas
         else:
             run.violated("FORMAT-PATH", fconstruct, want.loc, "rendered message never mentions error.path",
                          "nested errors are reported without their location")
+        # ---- FORMAT-CHILD: a missing element / key is named by the parent path EXTENDED by the index / key: every returned
+        # message of those two formatters derives from error.index / error.missing_key (also when it is 0, "" or False)
+        child = {"MissingElementValidationError": "error.index", "MissingKeyValidationError": "error.missing_key"}.get(name)
+        if child is not None and rets:
+            lacking = [p for p in rets if not _mentions(p.value, child)]
+            cc = f"{fconstruct}: the message names the missing child"
+            if lacking:
+                cond = [("" if b else "not ") + k for k, _, b in lacking[0].facts][-1:]
+                run.violated("FORMAT-CHILD", cc, want.loc, f"a path renders the message without {child}"
+                             + (f" (when {cond[0][:60]})" if cond else "") + ": the parent is named instead of the missing child",
+                             "validate(schema.list([schema.int]), []) renders `Element _ does not exist` instead of `Element _[0] does not exist`")
+            else:
+                run.holds("FORMAT-CHILD", cc, want.loc, f"every message derives from {child}", nontrivial=True)
         # ---- PATH-OWNERSHIP: indexing of a PathHolder inside the formatter
         seen_sites: Set[str] = set()
         for p in ps:
@@ -490,4 +504,13 @@ MUTANTS += [
     {"name": "neutral: alias chains unwrapped iteratively (path still forwarded)", "expect": "SILENT",
      "edits": [(V_, "        return schema.props.type.__accept__(self, value=value, path=path, **kwargs)",
                 "        target = schema.props.type\n        while isinstance(target, GenericTypeAliasSchema):\n            target = target.props.type\n        return target.__accept__(self, value=value, path=path, **kwargs)")]},
+]
+
+# round 7: the seeded changes that were missed on first contact, replayed against the current tree
+MUTANTS += [
+    {"name": 'seeded C03-N', "rule": 'FORMAT-CHILD',
+     "edits": [('d42/validation/_formatter.py', 'from copy import deepcopy\nfrom typing import Any, Sequence\n\nfrom th import PathHolder\n\nfrom ._abstract_formatter import AbstractFormatter\n', 'from copy import deepcopy\nfrom typing import Any, Sequence\n\nfrom niltype import Nil\nfrom th import PathHolder\n\nfrom ._abstract_formatter import AbstractFormatter\n'),
+               ('d42/validation/_formatter.py', '    def root(self) -> str:\n        return self._root\n\n    def _format_path(self, path: PathHolder) -> str:\n        return str(path.__class__(self._root, [x for x in path]))\n\n    def _at_path(self, path: PathHolder) -> str:\n', "    def root(self) -> str:\n        return self._root\n\n    def _format_path(self, path: PathHolder, child: Any = Nil) -> str:\n        if child:\n            # render the path of a child (key or index) without touching the error's own path\n            path = deepcopy(path)[child]\n        return str(path.__class__(self._root, [x for x in path]))\n\n    def _at_path(self, path: PathHolder) -> str:\n"),
+               ('d42/validation/_formatter.py', '                f"must match pattern {error.pattern!r}, but {error.actual_value!r} given")\n\n    def format_missing_element_error(self, error: MissingElementValidationError) -> str:\n        path = deepcopy(error.path)\n        formatted_path = self._format_path(path[error.index])\n        return f"Element {formatted_path} does not exist"\n\n    def format_extra_element_error(self, error: ExtraElementValidationError) -> str:\n', '                f"must match pattern {error.pattern!r}, but {error.actual_value!r} given")\n\n    def format_missing_element_error(self, error: MissingElementValidationError) -> str:\n        formatted_path = self._format_path(error.path, error.index)\n        return f"Element {formatted_path} does not exist"\n\n    def format_extra_element_error(self, error: ExtraElementValidationError) -> str:\n'),
+               ('d42/validation/_formatter.py', '        return f"Value{formatted_path} contains extra element at index {error.index!r}"\n\n    def format_missing_key_error(self, error: MissingKeyValidationError) -> str:\n        path = deepcopy(error.path)\n        formatted_path = self._format_path(path[error.missing_key])\n        return f"Key {formatted_path} does not exist"\n\n    def format_extra_key_error(self, error: ExtraKeyValidationError) -> str:\n', '        return f"Value{formatted_path} contains extra element at index {error.index!r}"\n\n    def format_missing_key_error(self, error: MissingKeyValidationError) -> str:\n        formatted_path = self._format_path(error.path, error.missing_key)\n        return f"Key {formatted_path} does not exist"\n\n    def format_extra_key_error(self, error: ExtraKeyValidationError) -> str:\n')]},
 ]
